@@ -38,6 +38,7 @@ import (
 	"encoding/binary"
 	"fmt"
 	"io"
+	"math"
 	"math/rand"
 )
 
@@ -83,9 +84,20 @@ func IntRange(min, max int) int {
 		panic(fmt.Sprintf("IntRange: min > max (%d, %d)", min, max))
 	}
 
-	r := (max + 1) - min
-	ret := Rand.Intn(r)
-	return ret + min
+	// The width of the range is computed as an unsigned value, where
+	// max - min can not overflow (max + 1 and (max + 1) - min can).
+	span := uint64(max) - uint64(min)
+	if span < uint64(math.MaxInt) {
+		return min + Rand.Intn(int(span)+1)
+	}
+
+	// The range holds at least MaxInt + 1 values, more than Intn can
+	// address, so use rejection sampling over the full 64 bits.
+	for {
+		if v := Rand.Uint64(); v <= span {
+			return int(uint64(min) + v)
+		}
+	}
 }
 
 // Bytes fills the slice with random data.
